@@ -5,6 +5,7 @@ import (
 	"encoding/xml"
 	"errors"
 	"io"
+	"net/url"
 	"strings"
 )
 
@@ -82,7 +83,13 @@ func hasEncryptedContent(f *zip.File) (bool, error) {
 
 	// Check each encrypted resource
 	for _, ed := range enc.EncryptedData {
-		uri := strings.ToLower(ed.CipherData.CipherReference.URI)
+		// The reference is a URI: percent-encoded octets stand for the
+		// characters of the file name (RFC 3986 2.1)
+		uri := ed.CipherData.CipherReference.URI
+		if decoded, err := url.PathUnescape(uri); err == nil {
+			uri = decoded
+		}
+		uri = strings.ToLower(uri)
 
 		// Font obfuscation algorithms are OK
 		algo := ed.EncryptionMethod.Algorithm
